@@ -41,6 +41,8 @@ FLAVOURS = {
     "uchar-O2": ("-O2 -g -funsigned-char -DDEBUG=true", "-O2 -g -funsigned-char", ""),
     # the project's Release flags: assertions compiled out (CBOR_ASSERT and assert() vanish), -O3
     "release-O3": ("-O3 -DNDEBUG", "-O2 -g", ""),
+    # CMake's MinSizeRel: -Os defines __OPTIMIZE_SIZE__, which size-conscious code paths key on
+    "size-Os": ("-Os -g -DDEBUG=true", "-O2 -g", ""),
     "ubsan-O2": ("-O2 -g -fsanitize=undefined -fno-sanitize=nonnull-attribute -fno-sanitize-recover=all -DDEBUG=true",
                  "-O2 -g -fsanitize=undefined -fno-sanitize=nonnull-attribute -fno-sanitize-recover=all", "-fsanitize=undefined"),
     # plain-O2 objects, linked with --wrap so any direct libc allocation call made by libcbor is seen
